@@ -268,6 +268,7 @@ static ssize_t ck_write(void* c, const char* buf, size_t n) {
         Fault* flt = fs_enter("write");
         of = getof((int)(intptr_t)c); if (!of) { errno = EBADF; return done; }
         size_t k = n - done; int err = 0;
+        { Task* t_ = tl_task; if (t_ && (long)k > t_->wmax_size) { t_->wmax_size = (long)k; t_->wmax_nth = t_->fs_nth["write"] - 1; } }
         if (flt) {
             if (flt->err) { err = flt->err; k = flt->partial > 0 ? std::min<size_t>(flt->partial, k - 1) : 0; }
             else k = std::min<size_t>(k, flt->partial > 0 ? flt->partial : 1);
